@@ -253,4 +253,4 @@ def run(ctx):
         ctx.sample({"base": [f"{k}:" + core.cond_text((b, a), names) for k, b, a in c["base"]], "weakly": c["weakly"],
                     "facts": [core.f_text(f, names) for f in c["facts"]], "partition": part, "diag": impl["diag"]})
         for f in compare(c, impl, model):
-            ctx.failures.append(shrink(f))
+            ctx.fail(f, shrink)
